@@ -58,7 +58,11 @@ func c17Batch(ch func(int) int) []rc.Message {
 	return out
 }
 
-func c17Exec(rcx *RunCtx, sched *simrt.Tape, batch []rc.Message, sock bool, seg int, cuts []int64, lockstep bool, endAt int, trace bool) (map[int]c17Result, []Finding, *simrt.Result, int) {
+// halfClose: 0 = leave the stream open, 1 = the sender closes its writing half
+// right after the last byte (plain EOF on the next read), 2 = the same, and the
+// reader hands over the final bytes together with io.EOF (legal for an
+// io.Reader; generic path only).
+func c17Exec(rcx *RunCtx, sched *simrt.Tape, batch []rc.Message, sock bool, seg int, cuts []int64, lockstep bool, endAt int, trace bool, halfClose int) (map[int]c17Result, []Finding, *simrt.Result, int) {
 	res := map[int]c17Result{}
 	var findings []Finding
 	cfg := simrt.Config{Trace: trace, MaxSteps: 400000, Stick: 1}
@@ -115,6 +119,9 @@ func c17Exec(rcx *RunCtx, sched *simrt.Tape, batch []rc.Message, sock bool, seg 
 			c.SendRaw(stream)
 			if endAt >= 0 {
 				c.Close()
+			} else if halfClose > 0 && !sock {
+				c.Net.C2S.EOFWithData = halfClose == 2
+				c.Net.C2S.CloseWrite()
 			}
 			simrt.WaitQuiescent()
 			reqs = c.Mon.Req.Frames[nf:]
@@ -197,7 +204,8 @@ func runC17(rcx *RunCtx) {
 	var seg int
 	var cuts []int64
 	endAt := -1
-	mode := p.Choose(6)
+	mode := p.Choose(7)
+	halfClose := 0
 	switch mode {
 	case 0:
 		seg = simnet.SegByte
@@ -220,15 +228,19 @@ func runC17(rcx *RunCtx) {
 	case 5:
 		seg = simnet.SegRandom
 		endAt = 1 + p.Choose(total-1)
+	case 6: // complete stream, then end of stream (with or without the final bytes in the same Read)
+		seg = []int{simnet.SegWhole, simnet.SegRandom, simnet.SegByte}[p.Choose(3)]
+		halfClose = 1 + p.Choose(2)
+		sock = false
 	}
 	path := "io.Reader"
 	if sock {
 		path = "socketpair/recvmsg"
 	}
 	rcx.Label = fmt.Sprintf("server %s mode=%d", path, mode)
-	rcx.Sample = map[string]interface{}{"receiver": "server", "path": path, "frames": len(batch), "stream_bytes": total, "segmentation": seg, "cuts": cuts, "stream_ends_at": endAt}
-	ref, f0, _, _ := c17Exec(rcx, simrt.NewTape(7), batch, false, simnet.SegWhole, nil, true, -1, false)
-	got, f1, res, splits := c17Exec(rcx, rcx.Sched, batch, sock, seg, cuts, false, endAt, rcx.Trace)
+	rcx.Sample = map[string]interface{}{"receiver": "server", "path": path, "frames": len(batch), "stream_bytes": total, "segmentation": seg, "cuts": cuts, "stream_ends_at": endAt, "half_close": halfClose}
+	ref, f0, _, _ := c17Exec(rcx, simrt.NewTape(7), batch, false, simnet.SegWhole, nil, true, -1, false, 0)
+	got, f1, res, splits := c17Exec(rcx, rcx.Sched, batch, sock, seg, cuts, false, endAt, rcx.Trace, halfClose)
 	rcx.Res = res
 	rcx.Findings = append(rcx.Findings, f0...)
 	rcx.Findings = append(rcx.Findings, f1...)
@@ -237,7 +249,7 @@ func runC17(rcx *RunCtx) {
 		for i := range batch {
 			a, b := ref[i], got[i]
 			if a.reply != b.reply {
-				rcx.Find("C17", "reply-differs", rc.TypeName(batch[i].MsgType()), "%s over %s (segmentation %d, cuts %v): reply %s, but delivered whole it is %s", rc.String(batch[i]), path, seg, cuts, b.reply, a.reply)
+				rcx.Find("C17", "reply-differs", rc.TypeName(batch[i].MsgType()), "%s over %s (segmentation %d, cuts %v, end-of-stream mode %d): reply %s, but delivered whole it is %s", rc.String(batch[i]), path, seg, cuts, halfClose, b.reply, a.reply)
 				break
 			}
 			if fmt.Sprint(a.calls) != fmt.Sprint(b.calls) {
@@ -255,7 +267,7 @@ func init() {
 		Desc: "stream segmentation independence on the io.Reader and the socket (recvmsg) receive paths",
 		Run:  runC17,
 		Quick: 48000, Thorough: 800000, QuickSecs: 60, ThorSecs: 1500,
-		Rule:  "batches of 2-6 independent requests with and without payloads (Twrite 0..4000 bytes, Tread, Twalk 0-2 names, Tmkdir/Tsymlink with strings of 0..200 bytes, Tsetattr, Tgetattr with random masks) delivered as one byte stream cut into reads: single bytes, tape-chosen cuts, one or two planned cuts (aimed at offsets 1,4,6,7,8 and around the first frame boundary half of the time), several frames per read, and streams ending at a tape-chosen offset; each through the generic io.Reader path (simnet) and a real AF_UNIX socket pair (vecnet recvmsg/iovec path), server and client as receivers. Oracle: per request, the reply and the backend calls with their arguments and payload bytes equal those of a whole, lock-step reference delivery; a stream ending inside a frame ends the connection with no reply and no backend call for the partial frame.",
+		Rule:  "batches of 2-6 independent requests with and without payloads (Twrite 0..4000 bytes, Tread, Twalk 0-2 names, Tmkdir/Tsymlink with strings of 0..200 bytes, Tsetattr, Tgetattr with random masks) delivered as one byte stream cut into reads: single bytes, tape-chosen cuts, one or two planned cuts (aimed at offsets 1,4,6,7,8 and around the first frame boundary half of the time), several frames per read, streams ending at a tape-chosen offset, and complete streams whose end arrives as a separate (0, EOF) read or together with the final bytes (n, EOF); each through the generic io.Reader path (simnet) and a real AF_UNIX socket pair (vecnet recvmsg/iovec path), server and client as receivers. Oracle: per request, the reply and the backend calls with their arguments and payload bytes equal those of a whole, lock-step reference delivery; a stream ending inside a frame ends the connection with no reply and no backend call for the partial frame.",
 		Assume: []string{"requests of a batch touch disjoint fids and names, so concurrent handling cannot change their individual results"},
 		Real:   []string{"p9 recv path", "vecnet.Buffers.ReadFrom (generic and recvmsg paths)", "kernel socket pair (socket mode)", "p9.Server"},
 		Stub:   []string{"transport for the reply direction (simnet)", "backend tree (simfs)", "raw 9P peer (refcodec)"},
